@@ -94,3 +94,21 @@ check("C11", "exploration",
       "Trusted: the trigger sets copied from the statement. Documents and base sets are sampled; exhaustive for short strings with the empty base set.",
       "runtime monitoring: metamorphic relation (with/without extension on trigger-free documents; GFM versus members) between executions of the real converter",
       "DESIGN.md section 4 / C11")
+check("C15", "exploration",
+      "Output and tree monitoring: with AutoHeadingID on (Attribute off, safe mode) every output is tokenized and every h1..h6 must carry a non-empty id, pairwise distinct within the document; the parsed tree must agree (every ast.Heading has a non-empty id, same number of headings); "
+      "every document is converted by a long-lived instance with a history and by a fresh instance and the id lists must be equal. All arrival orders of up to 4/5 heading texts from a 16-text collision pool, random multisets up to 40 headings, ATX/Setext, inside quotes, lists, footnotes, definition lists; 9 extension sets.",
+      "Trusted: the strict tokenizer. Heading ids only (collisions with other generated ids are out of the statement). Documents beyond the exhaustive bound are sampled.",
+      "runtime monitoring: output tokenizer + tree assertions (presence, non-emptiness, uniqueness of heading ids) and fresh-versus-history comparison over exhaustive heading-text sequences and random documents",
+      "DESIGN.md section 4 / C15")
+check("C16", "exploration",
+      "Output monitoring: every output of a Footnote configuration (safe mode) is tokenized and the footnote structure is checked - items numbered 1..m in order, each reference shows and links its item, back-links sit in their item, point to an existing reference and correspond one to one to references, all ids distinct; "
+      "by construction the generator knows which definitions are referenced nowhere (their marker words must be absent) and, for plain documents, the item count, item order and every reference number.",
+      "Trusted: the strict tokenizer, the 150-line structure checker, the generator's bookkeeping for plain documents. Documents are sampled.",
+      "runtime monitoring: output structure checker (ids, cross-links, numbering) plus by-construction expectations over generated footnote documents, footnote soup and corpus mutants",
+      "DESIGN.md section 4 / C16")
+check("C17", "exploration",
+      "Output and tree monitoring: every <table> of every output (Table configurations, safe mode, all four alignment methods) must have one header row, rectangular body rows and column-consistent alignments; the parsed tree must agree (Alignments, header and rows of equal length); "
+      "for generated tables the shape, alignments, cell contents, padding and truncation are known by construction and compared, and candidates with a header/delimiter cell-count mismatch must not become a table.",
+      "Trusted: the strict tokenizer, the table checker, the table generator (tables placed where GFM certainly forms one). Documents are sampled.",
+      "runtime monitoring: output/tree shape checker plus by-construction expectations over generated tables, pipe/dash/colon soup and corpus mutants",
+      "DESIGN.md section 4 / C17")
